@@ -134,7 +134,33 @@ pub fn run_exit_contract(
         let shown = shown_errors(&r);
         let (file, rep) = totals(&r, spec);
         let cmd = spec.cmdline();
-        if kind == "mute" {
+        if kind == "other-mode" {
+            // view / filtered writing on the same input: a reported fatal gives N (0 or 1 without -E)
+            let fatal = fatal_reported(&r);
+            let want: Vec<i32> = if init_failed(&r) {
+                (1..=255).collect()
+            } else if fatal {
+                match n {
+                    Some(n) => vec![n],
+                    None => vec![0, 1],
+                }
+            } else {
+                // the writer with a filter may never reach the broken packet's successor: no fatal, exit 0
+                vec![0]
+            };
+            if !want.contains(&r.status) {
+                out.fail = fail(
+                    "status-fatal-midstream-other-mode",
+                    format!(
+                        "-E {:?}: exit status {} (expected {}); fatal reported: {fatal} [cmd: {cmd}]",
+                        n,
+                        r.status,
+                        if want.len() > 3 { "non-zero".to_string() } else { format!("{want:?}") }
+                    ),
+                );
+                return out;
+            }
+        } else if kind == "mute" {
             if !shown.is_empty() {
                 out.fail = fail("mute-shows-errors", format!("-m still shows {} messages, first: {} [cmd: {cmd}]", shown.len(), clip_pub(&shown[0].text)));
                 return out;
